@@ -64,7 +64,9 @@ theorem raiseIfPidReused_safe (o : Obj) :
   dsimp only
   split
   · exact tri_throw (fun _ _ => rfl)
-  · exact tri_pure trivial
+  · split
+    · exact tri_throw (fun _ _ => rfl)
+    · exact tri_pure trivial
 
 theorem cacheInv_fe {k : Cache} (f : Cache → Cache) (hf : ∀ k, (f k).status = k.status) (h : CacheInv k) :
     CacheInv (f k) := by
@@ -331,7 +333,7 @@ theorem children_partial_safe (o : Obj) : Tri (OrAd o.pid) (Fe.children (goodCfg
   unfold Fe.children
   refine tri_bind (tri_exc (raiseIfPidReused_safe r o) (fun _ _ _ h => Or.inl (nspOnly_psOnly h))) (fun _ _ => ?_)
   refine tri_bind (tri_exc (ppidMap_safe r) (fun _ _ _ h => h.elim)) (fun pm _ => ?_)
-  exact tri_bind (childrenLoop_safe r o pm) (fun _ _ => tri_pure trivial)
+  exact tri_bind (childrenLoop_safe r o _) (fun _ _ => tri_pure trivial)
 
 /-- the /proc listing is never empty (admissible worlds list a process besides the target) -/
 theorem tri_listdir_root {E : Ctx → Nat → PyExc → Prop} : Tri E (accListdir .root) (fun l => l ≠ []) := by
